@@ -17,7 +17,7 @@ def TR(name, op, tn, tiers, extra=(), height=None, **kw):
           "Tree_Maximum.0:%d" % (h + 1), "Tree_Mem.0:%d" % (h + 2), "Tree_Get.0:%d" % (h + 2),
           "Tree_Iter_Init.0:%d" % (h + 1), "Tree_Iter_Last.0:%d" % (h + 1), "Tree_Iter_Next.0:%d" % (h + 1), "Tree_Iter_Next.1:%d" % (h + 2),
           "Tree_Iter_Prev.0:%d" % (h + 1), "Tree_Iter_Prev.1:%d" % (h + 2)]
-    kw.setdefault("mem_gb", 14)
+    kw.setdefault("mem_gb", 8 if tn > 6 else 5)     # the gate admits obligations by this figure: small shapes need little
     return Ob("tree.%s.n%d" % (name, tn - 1), "C03/tree_step.c", defs=["TN=%d" % tn] + ([("OP=%s" % op)] if op else []) + list(extra), replace=["Tree.c"],
               unwind=tn + 3, unwindset=us, checks=["bounds", "pointer"], tiers=tiers, fs_size=kw.pop("fs_size", 200),
               replace_calls=kw.pop("replace_calls", ACC),
